@@ -4,9 +4,9 @@ import Driver.Util
 /-
 xm_c14: runs generated stylesheets (as instruction trees) on the Lean model of the result-event machine.
 Request (one case per line, blank-separated tokens, `-` = empty string, `#` = default prefix):
-  case  := NDECL (p u)*  NEXCL p*  NALIAS (stylesheet-prefix result-prefix)*  NSETS (NATTR (name NSFLAG ns value)*)*  SRC  NBODY INSTR*
+  case  := NDECL (p u)*  NEXCL p*  NALIAS (stylesheet-prefix result-prefix)*  NSETS (NATTR (name NSFLAG ns value)*)*  NMOD (parent NDECL (p u)* NEXCL p* NALIAS (sp rp)* NBODY INSTR*)*  SRC  NBODY INSTR*
   SRC   := name uri NATT (qname val)* NKIDS SRC*
-  INSTR := L name NDECL (p u)* NATT (qname val)* NEXCL p* NUSE set* NBODY INSTR* | U NUSE set* (first child of E/Y)
+  INSTR := L name NDECL (p u)* NATT (qname val)* NEXCL p* NUSE set* NBODY INSTR* | U NUSE set* (first child of E/Y) | K module (xsl:call-template of the module's template)
          | E name NSFLAG ns NBODY INSTR* | A name NSFLAG ns value | T | C k | CA k attr-qname | Y k NBODY INSTR*
 Reply: `S name NATT (qname val)*` / `E name` / `T` events in order, then `|` and the branch tags;
        `BAD` (stylesheet would not compile), `ERR` (exception thrown), `bad` (unparsable request).
@@ -71,6 +71,7 @@ partial def pSrc : P Src
 
 partial def pInstr : P Instr
   | "T" :: ts => some (.text, ts)
+  | "K" :: k :: ts => k.toNat?.map (fun k => (.call k [], ts))
   | "U" :: ts => do
     let (ks, ts) ← pCounted pNat ts
     pure (.useSets ks, ts)
@@ -102,18 +103,46 @@ def showEv : Ev → String
   | .stop n => s!"E {n.str}"
   | .text => "T"
 
+/-- one imported module: `parent NDECL (p u)* NEXCL p* NALIAS (sp rp)* NBODY INSTR*` -/
+def pModule : P (Module × List Instr)
+  | par :: ts => do
+    let par ← par.toNat?
+    let (decls, ts) ← pCounted pNS ts
+    let (excl, ts) ← pCounted pPfx ts
+    let (al, ts) ← pCounted pAlias ts
+    let (body, ts) ← pCounted pInstr ts
+    pure ((⟨par, decls, excl, al⟩, body), ts)
+  | [] => none
+
+mutual
+/-- put the body of the called module's template into every `call` -/
+def fillCalls (bodies : List (List Instr)) : Instr → Instr
+  | .call k _ => .call k (bodies.getD k [])
+  | .element n ns b => .element n ns (fillCallsList bodies b)
+  | .lre n d a e u b => .lre n d a e u (fillCallsList bodies b)
+  | .copy k b => .copy k (fillCallsList bodies b)
+  | i => i
+def fillCallsList (bodies : List (List Instr)) : List Instr → List Instr
+  | [] => []
+  | i :: is => fillCalls bodies i :: fillCallsList bodies is
+end
+
 def runLine (ts : List String) : String :=
   match (do
     let (decls, ts) ← pCounted pNS ts
     let (excl, ts) ← pCounted pPfx ts
     let (al, ts) ← pCounted pAlias ts
     let (sets, ts) ← pCounted (pCounted pSetAttr) ts
+    let (mods, ts) ← pCounted pModule ts
     let (src, ts) ← pSrc ts
     let (body, ts) ← pCounted pInstr ts
-    if ts.isEmpty then pure (decls, excl, al, sets, src, body) else none) with
+    if ts.isEmpty then pure (decls, excl, al, sets, mods, src, body) else none) with
   | none => "bad"
-  | some (decls, excl, al, sets, src, body) =>
-    let r := runCase XalanModel.Generated.C14_Variant.variant decls excl al sets src body
+  | some (decls, excl, al, sets, mods, src, body) =>
+    let all : List Module := ⟨0, decls, excl, al⟩ :: mods.map (·.1)
+    -- module bodies contain no calls themselves; index 0 (main) is never called
+    let bodies : List (List Instr) := [] :: mods.map (·.2)
+    let r := runCase XalanModel.Generated.C14_Variant.variant all sets src (fillCallsList bodies body)
     if r.bad then "BAD"
     else if r.st.err then "ERR | " ++ " ".intercalate r.tags.reverse
     else " ".intercalate (r.st.out.reverse.map showEv) ++ " | " ++ " ".intercalate r.tags.reverse
